@@ -3,23 +3,23 @@
    packets are written only on an open socket that accepts writes, with the number of the current
    connection; nothing is left in the queue at the end of an operation on such a socket.
    Proof of [FIFO_stmt]: the checker's queue is the model's [outq] at every step. *)
-From PahoV Require Import Base.Prelude Codec.Mid Session2.Model Session2.Check Session2.Lemmas Session2.Statements.
+From PahoV Require Import Base.Prelude Codec.Mid Session2.Model Session2.Check Session2.LLemmas Session2.Statements.
 
 Lemma pkt_eqb_refl p : pkt_eqb p p = true.
 Proof. destruct p as [|m q d t|m t|m|m|m]; cbn; rewrite ?Z.eqb_refl, ?Bool.eqb_reflx; reflexivity. Qed.
 
-(* the relation between the checker state and (connection number, may-write flag, socket, blocked flag, queue) *)
-Definition QR (cn : Z) (can o b : bool) (k : kf) (q : list qpkt) : Prop :=
-  kf_ok k = true /\ kf_q k = pkts q /\ kf_cn k = cn /\ kf_open k = o /\ kf_blk k = b /\
-  (can = true -> o = true /\ b = false /\ q = []).
+(* the relation between the checker state and (connection number, transport mode, is there a socket, queue) *)
+Definition QR (cn : Z) (t : tmode) (alive : bool) (k : kf) (q : list qpkt) : Prop :=
+  kf_ok k = true /\ kf_q k = pkts q /\ kf_cn k = cn /\ kf_open k = alive /\ kf_blk k = refuses t /\
+  (alive = true -> t <> TBlock -> q = []).
 
 Definition RF (s : sess) (k : kf) : Prop :=
-  QR (conn s) (can_write s) (sock s) (blocked s) k (outq s).
+  QR (conn s) (tm s) (sock s) k (outq s).
 
-Lemma RF_ext s s' k : conn s' = conn s -> sock s' = sock s -> blocked s' = blocked s -> outq s' = outq s ->
-  RF s k -> RF s' k.
-Proof. unfold RF, can_write. intros -> -> -> ->. exact (fun H => H). Qed.
-Ltac rf_ext H := refine (RF_ext _ _ _ _ _ _ _ H); cbn; congruence.
+Lemma RF_ext s s' k : conn s' = conn s -> sock s' = sock s -> blocked s' = blocked s -> failing s' = failing s ->
+  outq s' = outq s -> RF s k -> RF s' k.
+Proof. unfold RF, tm. intros -> -> -> -> ->. exact (fun H => H). Qed.
+Ltac rf_ext H := refine (RF_ext _ _ _ _ _ _ _ _ H); cbn; congruence.
 
 (* events the queue checker ignores *)
 Definition qneutral (e : event) : bool :=
@@ -50,76 +50,117 @@ Proof.
     rewrite E, (qneutral_fold _ _ (written_neutral x)). apply IH; reflexivity.
 Qed.
 
-Lemma qr_lw cn can o b k q : QR cn can o b k q ->
-  QR cn can o b (fold_left kf_ev (snd (lw cn can q)) k) (fst (lw cn can q)).
+
+Lemma qr_lw cn t alive k q : QR cn t alive k q ->
+  QR cn t (snd (lw cn t alive q)) (fold_left kf_ev (snd (fst (lw cn t alive q))) k) (fst (fst (lw cn t alive q))).
 Proof.
-  intros (Hok & Hq & Hcn & Ho & Hb & Hc). unfold lw. destruct can; cbn [fst snd fold_left].
-  - destruct (Hc eq_refl) as (-> & -> & ->). cbn [flush_evs fold_left].
-    repeat split; assumption.
-  - repeat split; try assumption; discriminate.
+  intros (Hok & Hq & Hcn & Ho & Hb & Hc). unfold lw. destruct alive; cbn [fst snd fold_left].
+  2:{ repeat split; assumption. }
+  destruct t; cbn [fst snd fold_left].
+  - rewrite (Hc eq_refl ltac:(discriminate)). cbn [flush_evs fold_left].
+    split; [exact Hok|]. split; [rewrite Hq, (Hc eq_refl ltac:(discriminate)); reflexivity|].
+    repeat split; try assumption.
+  - repeat split; assumption.
+  - rewrite (Hc eq_refl ltac:(discriminate)). cbn [fst snd fold_left].
+    split; [exact Hok|]. split; [rewrite Hq, (Hc eq_refl ltac:(discriminate)); reflexivity|].
+    repeat split; try assumption.
 Qed.
 
-Lemma qr_pq cn can o b k q x : QR cn can o b k q ->
-  QR cn can o b (fold_left kf_ev (snd (pq cn can q x)) k) (fst (pq cn can q x)).
+Lemma qr_pq cn t alive k q x : QR cn t alive k q ->
+  QR cn t (snd (pq cn t alive q x)) (fold_left kf_ev (snd (fst (pq cn t alive q x))) k) (fst (fst (pq cn t alive q x))).
 Proof.
-  intros (Hok & Hq & Hcn & Ho & Hb & Hc). unfold pq, lw. destruct can; cbn [fst snd fold_left].
-  - destruct (Hc eq_refl) as (-> & -> & ->).
-    rewrite (flush_fold cn ([] ++ [x]) (kf_ev k (Handed cn (q_pkt x)))); cbn [kf_ev kf_ok kf_q kf_cn kf_open kf_blk];
-      try assumption.
-    + repeat split; reflexivity.
+  intros (Hok & Hq & Hcn & Ho & Hb & Hc). unfold pq, lw. destruct alive.
+  2:{ cbn [fst snd fold_left kf_ev]. repeat split; cbn [kf_ok kf_q kf_cn kf_open kf_blk]; try assumption; try discriminate.
+      - rewrite Hok, Hcn, Z.eqb_refl. reflexivity.
+      - rewrite Hq. unfold pkts. rewrite map_app. reflexivity. }
+  destruct t.
+  - rewrite (Hc eq_refl ltac:(discriminate)). cbn [app fst snd fold_left].
+    rewrite (flush_fold cn [x] (kf_ev k (Handed cn (q_pkt x)))); cbn [kf_ev kf_ok kf_q kf_cn kf_open kf_blk]; try assumption.
+    + unfold QR. cbn. repeat split; reflexivity.
     + rewrite Hok, Hcn, Z.eqb_refl. reflexivity.
-    + rewrite Hq. reflexivity.
-  - cbn [kf_ev]. repeat split; cbn [kf_ok kf_q kf_cn kf_open kf_blk]; try assumption; try discriminate.
+    + rewrite Hq, (Hc eq_refl ltac:(discriminate)). reflexivity.
+  - cbn [fst snd fold_left kf_ev]. repeat split; cbn [kf_ok kf_q kf_cn kf_open kf_blk]; try assumption.
     + rewrite Hok, Hcn, Z.eqb_refl. reflexivity.
     + rewrite Hq. unfold pkts. rewrite map_app. reflexivity.
+    + intros _ H. exfalso. apply H. reflexivity.
+  - rewrite (Hc eq_refl ltac:(discriminate)). cbn [app fst snd fold_left kf_ev].
+    repeat split; cbn [kf_ok kf_q kf_cn kf_open kf_blk]; try assumption; try discriminate.
+    + rewrite Hok, Hcn, Z.eqb_refl. reflexivity.
+    + rewrite Hq, (Hc eq_refl ltac:(discriminate)). reflexivity.
 Qed.
 
 (* the two loops, without any assumption on the message store *)
-Lemma qr_connack_loop cn can o b : forall l k q, QR cn can o b k q ->
-  QR cn can o b (fold_left kf_ev (snd (connack_loop cn can q l)) k) (snd (fst (connack_loop cn can q l))).
+Lemma qr_connack_loop cn t : forall l k q, QR cn t true k q ->
+  QR cn t (snd (connack_loop cn t q l)) (fold_left kf_ev (snd (fst (connack_loop cn t q l))) k)
+     (snd (fst (fst (connack_loop cn t q l)))).
 Proof.
   induction l as [|m l IH]; intros k q H; cbn [connack_loop]; [exact H|].
-  assert (Hskip : QR cn can o b
-            (fold_left kf_ev (snd (let (q1, ev1) := lw cn can q in
-                                   let '(r, q2, ev2) := connack_loop cn can q1 l in (m :: r, q2, ev1 ++ ev2))) k)
-            (snd (fst (let (q1, ev1) := lw cn can q in
-                       let '(r, q2, ev2) := connack_loop cn can q1 l in (m :: r, q2, ev1 ++ ev2))))).
-  { pose proof (qr_lw _ _ _ _ _ _ H) as H1. destruct (lw cn can q) as [q1 ev1]. cbn [fst snd] in H1.
-    specialize (IH _ _ H1). destruct (connack_loop cn can q1 l) as [[r q2] ev2]. cbn [fst snd] in *.
+  assert (Hskip : QR cn t
+            (snd (let '(q1, ev1, a1) := lw cn t true q in
+                  if a1 then let '(r, q2, ev2, a2) := connack_loop cn t q1 l in (m :: r, q2, ev1 ++ ev2, a2)
+                  else (m :: l, q1, ev1, false)))
+            (fold_left kf_ev (snd (fst (let '(q1, ev1, a1) := lw cn t true q in
+                                   if a1 then let '(r, q2, ev2, a2) := connack_loop cn t q1 l in (m :: r, q2, ev1 ++ ev2, a2)
+                                   else (m :: l, q1, ev1, false)))) k)
+            (snd (fst (fst (let '(q1, ev1, a1) := lw cn t true q in
+                       if a1 then let '(r, q2, ev2, a2) := connack_loop cn t q1 l in (m :: r, q2, ev1 ++ ev2, a2)
+                       else (m :: l, q1, ev1, false)))))).
+  { pose proof (qr_lw _ _ _ _ _ H) as H1. destruct (lw cn t true q) as [[q1 ev1] a1]. cbn [fst snd] in H1.
+    destruct a1; [|exact H1].
+    specialize (IH _ _ H1). destruct (connack_loop cn t q1 l) as [[[r q2] ev2] a2]. cbn [fst snd] in *.
     rewrite fold_left_app. exact IH. }
-  assert (Hsend : forall x m', QR cn can o b
-            (fold_left kf_ev (snd (let (q1, ev1) := pq cn can q x in
-                                   let '(r, q2, ev2) := connack_loop cn can q1 l in (m' :: r, q2, ev1 ++ ev2))) k)
-            (snd (fst (let (q1, ev1) := pq cn can q x in
-                       let '(r, q2, ev2) := connack_loop cn can q1 l in (m' :: r, q2, ev1 ++ ev2))))).
-  { intros x m'. pose proof (qr_pq _ _ _ _ _ _ x H) as H1. destruct (pq cn can q x) as [q1 ev1]. cbn [fst snd] in H1.
-    specialize (IH _ _ H1). destruct (connack_loop cn can q1 l) as [[r q2] ev2]. cbn [fst snd] in *.
+  assert (Hsend : forall x m', QR cn t
+            (snd (let '(q1, ev1, a1) := pq cn t true q x in
+                  if a1 then let '(r, q2, ev2, a2) := connack_loop cn t q1 l in (m' :: r, q2, ev1 ++ ev2, a2)
+                  else (m' :: l, q1, ev1, false)))
+            (fold_left kf_ev (snd (fst (let '(q1, ev1, a1) := pq cn t true q x in
+                                   if a1 then let '(r, q2, ev2, a2) := connack_loop cn t q1 l in (m' :: r, q2, ev1 ++ ev2, a2)
+                                   else (m' :: l, q1, ev1, false)))) k)
+            (snd (fst (fst (let '(q1, ev1, a1) := pq cn t true q x in
+                       if a1 then let '(r, q2, ev2, a2) := connack_loop cn t q1 l in (m' :: r, q2, ev1 ++ ev2, a2)
+                       else (m' :: l, q1, ev1, false)))))).
+  { intros x m'. pose proof (qr_pq _ _ _ _ _ x H) as H1. destruct (pq cn t true q x) as [[q1 ev1] a1]. cbn [fst snd] in H1.
+    destruct a1; [|exact H1].
+    specialize (IH _ _ H1). destruct (connack_loop cn t q1 l) as [[[r q2] ev2] a2]. cbn [fst snd] in *.
     rewrite fold_left_app. exact IH. }
   destruct (o_st m); try exact Hskip.
   - apply Hsend.
   - destruct (o_qos m =? 2); [apply Hsend | exact Hskip].
-  - pose proof (qr_lw _ _ _ _ _ _ H) as H1. destruct (lw cn can q) as [q1 ev1]. exact H1.
+  - pose proof (qr_lw _ _ _ _ _ H) as H1. destruct (lw cn t true q) as [[q1 ev1] a1]. exact H1.
 Qed.
 
-Lemma qr_update_inflight c cn can o b : forall l infl k q, QR cn can o b k q ->
-  QR cn can o b (fold_left kf_ev (snd (update_inflight c cn can infl q l)) k)
-     (snd (fst (update_inflight c cn can infl q l))).
+Lemma qr_update_inflight c cn t : forall l infl k q, QR cn t true k q ->
+  QR cn t (snd (update_inflight c cn t infl q l)) (fold_left kf_ev (snd (fst (update_inflight c cn t infl q l))) k)
+     (snd (fst (fst (update_inflight c cn t infl q l)))).
 Proof.
   induction l as [|m l IH]; intros infl k q H; cbn [update_inflight]; [exact H|].
   destruct (infl <? c_max c); [|exact H].
   destruct (is_queued m).
-  - pose proof (qr_pq _ _ _ _ _ _ (mkQ (pub_pkt m) false) H) as H1.
-    destruct (pq cn can q (mkQ (pub_pkt m) false)) as [q1 ev1]. cbn [fst snd] in H1.
-    specialize (IH (infl + 1) _ _ H1). destruct (update_inflight c cn can (infl + 1) q1 l) as [[[r n] q2] ev2].
+  - pose proof (qr_pq _ _ _ _ _ (mkQ (pub_pkt m) false) H) as H1.
+    destruct (pq cn t true q (mkQ (pub_pkt m) false)) as [[q1 ev1] a1]. cbn [fst snd] in H1.
+    destruct a1; [|exact H1].
+    specialize (IH (infl + 1) _ _ H1). destruct (update_inflight c cn t (infl + 1) q1 l) as [[[[r n] q2] ev2] a2].
     cbn [fst snd] in *. rewrite fold_left_app. exact IH.
-  - specialize (IH infl _ _ H). destruct (update_inflight c cn can infl q l) as [[[r n] q2] ev2]. exact IH.
+  - specialize (IH infl _ _ H). destruct (update_inflight c cn t infl q l) as [[[[r n] q2] ev2] a2]. exact IH.
+Qed.
+
+(* the state after write attempts *)
+Lemma rf_settle s k' q' a : sock s = true -> QR (conn s) (tm s) a k' q' -> RF (settle s q' a) k'.
+Proof.
+  intros Hs H. unfold settle, RF. destruct a.
+  - cbn [conn sock outq with_q]. change (tm (with_q s q')) with (tm s). rewrite Hs. exact H.
+  - cbn [conn sock outq with_q with_sock]. change (tm (with_q (with_sock s false) q')) with (tm s). exact H.
 Qed.
 
 (* one hand-over from outside a callback *)
 Lemma rf_send s x k : RF s k -> RF (fst (send s x)) (fold_left kf_ev (snd (send s x)) k).
 Proof.
-  intros H. unfold send. pose proof (qr_pq _ _ _ _ _ _ x H) as H1.
-  destruct (pq (conn s) (can_write s) (outq s) x) as [q' ev]. exact H1.
+  intros H. unfold send. destruct (sock s) eqn:Hs.
+  - assert (H0 : QR (conn s) (tm s) true k (outq s)) by (unfold RF in H; rewrite Hs in H; exact H).
+    pose proof (qr_pq _ _ _ _ _ x H0) as H1.
+    destruct (pq (conn s) (tm s) true (outq s) x) as [[q' ev] a]. cbn [fst snd] in *. apply rf_settle; assumption.
+  - unfold RF in *. rewrite Hs in H. pose proof (qr_pq _ _ _ _ _ x H) as H1. cbn [pq lw fst snd] in H1.
+    cbn [fst snd conn sock outq with_q]. change (tm (with_q s (outq s ++ [x]))) with (tm s). rewrite Hs. exact H1.
 Qed.
 
 Lemma rf_neutral s k evs : forallb qneutral evs = true -> RF s k -> RF s (fold_left kf_ev evs k).
@@ -135,17 +176,19 @@ Lemma rf_publish s q k : RF s k -> RF (fst (do_publish c s q)) (fold_left kf_ev 
 Proof.
   intros H. unfold do_publish. cbv zeta.
   assert (Hret : forall s' tag mid rc, RF s' k -> RF s' (fold_left kf_ev [Ret tag mid q rc] k)) by (intros; assumption).
-  assert (Hsend : forall s1 x tag mid rc, RF s1 k ->
-            RF (fst (let (s2, ev) := send s1 x in (s2, ev ++ [Ret tag mid q rc])))
-               (fold_left kf_ev (snd (let (s2, ev) := send s1 x in (s2, ev ++ [Ret tag mid q rc]))) k)).
-  { intros s1 x tag mid rc H1. pose proof (rf_send s1 x k H1) as H2. destruct (send s1 x) as [s2 ev].
+  assert (Hsend : forall s1 x tag mid (rcf : sess -> Z), RF s1 k ->
+            RF (fst (let (s2, ev) := send s1 x in (s2, ev ++ [Ret tag mid q (rcf s2)])))
+               (fold_left kf_ev (snd (let (s2, ev) := send s1 x in (s2, ev ++ [Ret tag mid q (rcf s2)]))) k)).
+  { intros s1 x tag mid rcf H1. pose proof (rf_send s1 x k H1) as H2. destruct (send s1 x) as [s2 ev].
     cbn [fst snd] in *. rewrite fold_left_app. exact H2. }
   destruct (q =? 0).
-  { destruct (sock s) eqn:Hs; [apply Hsend | apply Hret]; rf_ext H. }
+  { destruct (sock s) eqn:Hs; [apply (Hsend _ _ _ _ (fun s2 => if sock s2 then 0 else 7)) | apply Hret]; rf_ext H. }
   destruct ((c_maxq c >? 0) && (Z.of_nat (length (out s)) >=? c_maxq c)); [apply Hret; rf_ext H|].
   destruct (has_mid (mid_next (last_mid s)) (out s)); [apply Hret; rf_ext H|].
-  destruct (window_free c (inflight s)); [destruct (sock s) eqn:Hs|];
-    [apply Hsend | apply Hret | apply Hret]; (rf_ext H).
+  destruct (window_free c (inflight s)); [destruct (sock s) eqn:Hs|]; [| apply Hret; rf_ext H | apply Hret; rf_ext H].
+  match goal with |- context [send ?s0 ?x0] =>
+    assert (H1 : RF s0 k) by (rf_ext H); pose proof (rf_send s0 x0 k H1) as H2; destruct (send s0 x0) as [s2 ev] end.
+  cbn [fst snd] in *. destruct (sock s2); cbn [fst snd]; rewrite fold_left_app; [exact H2 | rf_ext H2].
 Qed.
 
 Lemma lost_neutral q : forallb qneutral (flat_map lost_evs q) = true.
@@ -161,23 +204,25 @@ Proof.
   destruct (reset_out_list c (clean_now c s) 0 (out s)) as [o n].
   destruct ok; cbn [fst snd]; rewrite fold_cons, fold_left_app, (qneutral_fold _ _ (lost_neutral _)).
   - cbn [fold_left kf_ev kf_q kf_ok kf_open kf_blk kf_cn app]. rewrite Hok, !Z.eqb_refl. cbn.
-    unfold RF, QR, can_write. cbn. repeat split; reflexivity.
-  - cbn [fold_left kf_ev]. unfold RF, QR, can_write. cbn. repeat split; try assumption; discriminate.
+    unfold RF, QR, tm. cbn. repeat split; reflexivity.
+  - cbn [fold_left kf_ev]. unfold RF, QR, tm. cbn. repeat split; try assumption; discriminate.
 Qed.
 
 Lemma rf_sock_false s k : RF s k -> RF (with_sock s false) (kf_ev k SockLost).
 Proof.
-  intros (Hok & Hq & Hcn & Ho & Hb & Hc). unfold RF, QR, can_write. cbn.
-  repeat split; try assumption; discriminate.
+  intros (Hok & Hq & Hcn & Ho & Hb & Hc). unfold RF, QR. cbn [conn sock outq with_sock kf_ev kf_ok kf_q kf_cn kf_open kf_blk].
+  change (tm (with_sock s false)) with (tm s). repeat split; try assumption; discriminate.
 Qed.
 
-Lemma rf_on_publish s m k : RF s k ->
+Lemma rf_on_publish s m k : sock s = true -> RF s k ->
   RF (fst (do_on_publish c s m)) (fold_left kf_ev (snd (do_on_publish c s m)) k).
 Proof.
-  intros H. unfold do_on_publish. destruct (c_max c >? 0).
-  - pose proof (qr_update_inflight c _ _ _ _ (remove_mid (o_mid m) (out s)) (inflight s - 1) _ _ H) as H1.
-    destruct (update_inflight c (conn s) (can_write s) (inflight s - 1) (outq s) (remove_mid (o_mid m) (out s)))
-      as [[[o' n] q'] ev]. cbn [fst snd] in *. exact H1.
+  intros Hs H. unfold do_on_publish. destruct (c_max c >? 0).
+  - assert (H0 : QR (conn s) (tm s) true k (outq s)) by (unfold RF in H; rewrite Hs in H; exact H).
+    pose proof (qr_update_inflight c _ _ (remove_mid (o_mid m) (out s)) (inflight s - 1) _ _ H0) as H1.
+    destruct (update_inflight c (conn s) (tm s) (inflight s - 1) (outq s) (remove_mid (o_mid m) (out s)))
+      as [[[[o' n] q'] ev] a]. cbn [fst snd fold_left kf_ev] in *.
+    apply (rf_settle (with_out s o' n)); [exact Hs | exact H1].
   - cbn [fst snd fold_left kf_ev]. rf_ext H.
 Qed.
 
@@ -191,20 +236,20 @@ Proof.
     cbn [fst snd] in *. rewrite fold_left_app, (qneutral_fold _ _ Hpre). exact H2. }
   destruct p as [rc|mid|mid|mid|mid|q mid tag].
   - destruct (rc =? 0).
-    + assert (H0 : QR (conn s) (can_write s) (sock s) (blocked s) k (outq s)) by exact H.
-      pose proof (qr_connack_loop _ _ _ _ (out s) _ _ H0) as H1.
-      destruct (connack_loop (conn s) (can_write s) (outq s) (out s)) as [[o q'] ev]. cbn [fst snd] in *.
-      unfold RF, can_write in *. cbn [conn sock blocked outq with_q with_out fold_left kf_ev] in *.
-      rewrite ?Hs in *. exact H1.
+    + assert (H0 : QR (conn s) (tm s) true k (outq s)) by (unfold RF in H; rewrite Hs in H; exact H).
+      pose proof (qr_connack_loop _ _ (out s) _ _ H0) as H1.
+      destruct (connack_loop (conn s) (tm s) (outq s) (out s)) as [[[o q'] ev] a]. cbn [fst snd fold_left kf_ev] in *.
+      set (s1 := with_out _ o (inflight s)).
+      apply (rf_settle s1); [reflexivity | exact H1].
     + cbn [fst snd fold_left]. change (kf_ev k (Inp (IConnack rc))) with k.
-      apply (rf_sock_false (mkS (out s) (inm s) (inflight s) (last_mid s) (sock s) false true (conn s) (ntag s) (outq s) (blocked s))).
+      apply (rf_sock_false (mkS (out s) (inm s) (inflight s) (last_mid s) (sock s) false true (conn s) (ntag s) (outq s) (blocked s) (failing s))).
       rf_ext H.
   - destruct (find_mid mid (out s)) as [m|]; [|exact H].
-    pose proof (rf_on_publish s m k H) as H1. destruct (do_on_publish c s m) as [s' ev]. exact H1.
+    pose proof (rf_on_publish s m k Hs H) as H1. destruct (do_on_publish c s m) as [s' ev]. exact H1.
   - destruct (find_mid mid (out s)) as [m|]; [|exact H].
     apply (Hsend _ _ [Inp (IPubrec mid)] eq_refl). rf_ext H.
   - destruct (find_mid mid (out s)) as [m|]; [|exact H].
-    pose proof (rf_on_publish s m k H) as H1. destruct (do_on_publish c s m) as [s' ev]. exact H1.
+    pose proof (rf_on_publish s m k Hs H) as H1. destruct (do_on_publish c s m) as [s' ev]. exact H1.
   - destruct (in_find mid (inm s)) as [tag|]; unfold deliver.
     + destruct (r && negb (c_suppress c)); [|destruct (c_manual c)]; cbn [fst snd];
         try (apply rf_neutral; [reflexivity|]; rf_ext H).
@@ -223,21 +268,30 @@ Qed.
 
 Lemma rf_step s o k : RF s k -> RF (fst (step c s o)) (fold_left kf_ev (snd (step c s o)) k).
 Proof.
-  intros H. destruct o as [q|ok| |p r|mid q|b]; cbn [step].
+  intros H. destruct o as [q|ok| |p r|mid q|m]; cbn [step].
   - apply rf_publish; exact H.
   - apply rf_reconnect; exact H.
   - destruct (sock s); [|exact H]. apply rf_sock_false. exact H.
   - apply rf_rx; exact H.
   - unfold do_ack. destruct (c_manual c); [|exact H].
     destruct (q =? 1); [apply rf_send; exact H|]. destruct (q =? 2); [apply rf_send; exact H | exact H].
-  - unfold do_block. destruct (sock s) eqn:Hs; [|exact H].
-    destruct H as (Hok & Hq & Hcn & Ho & Hb & Hc). destruct b; cbn [fst snd lw].
-    + cbn [fold_left kf_ev]. unfold RF, QR, can_write. cbn. rewrite andb_false_r.
-      repeat split; try assumption; discriminate.
-    + rewrite fold_cons. rewrite (flush_fold (conn s) (outq s)); cbn [kf_ev kf_ok kf_q kf_cn kf_open kf_blk]; try assumption.
-      * unfold RF, QR, can_write. cbn. rewrite Hs. repeat split; reflexivity.
-      * rewrite Ho. exact Hs.
-      * reflexivity.
+  - unfold do_transport. destruct (sock s) eqn:Hs; [|exact H].
+    destruct H as (Hok & Hq & Hcn & Ho & Hb & Hc). rewrite Hs in Ho.
+    assert (Hgo : forall m', m' <> TBlock ->
+              RF (fst (let '(q', ev, a) := lw (conn s) m' true (outq s) in (settle (with_tm s m') q' a, Blk (refuses m') :: ev)))
+                 (fold_left kf_ev (snd (let '(q', ev, a) := lw (conn s) m' true (outq s) in (settle (with_tm s m') q' a, Blk (refuses m') :: ev))) k)).
+    { intros m' Hm'. unfold lw. destruct m'; [| exfalso; apply Hm'; reflexivity |].
+      - cbn [fst snd settle]. rewrite fold_cons.
+        rewrite (flush_fold (conn s) (outq s)); cbn [kf_ev kf_ok kf_q kf_cn kf_open kf_blk refuses]; try assumption; try reflexivity.
+        unfold RF, QR, tm. cbn. rewrite Hs. repeat split; reflexivity.
+      - destruct (outq s) as [|x q0] eqn:Eq; cbn [fst snd settle fold_left kf_ev refuses].
+        + unfold RF, QR, tm. cbn. rewrite Hs. repeat split; try assumption; try reflexivity.
+        + unfold RF, QR, tm. cbn. repeat split; try assumption; try reflexivity; try discriminate. }
+    destruct m.
+    + apply Hgo. discriminate.
+    + cbn [fst snd fold_left kf_ev]. unfold RF, QR, tm. cbn. rewrite Hs.
+      repeat split; try assumption. intros _ Hx. exfalso. apply Hx. reflexivity.
+    + apply Hgo. discriminate.
 Qed.
 
 (* the end-of-operation clause *)
@@ -247,9 +301,9 @@ Proof.
   set (k' := fold_left kf_ev (snd (step c s o)) k) in *. set (s' := fst (step c s o)) in *.
   destruct H1 as (Hok & Hq & Hcn & Ho & Hb & Hc). unfold RF, QR. cbn [kf_ok kf_q kf_cn kf_open kf_blk].
   split; [|split; [exact Hq|split; [exact Hcn|split; [exact Ho|split; [exact Hb|exact Hc]]]]].
-  rewrite Hok, Ho, Hb, Hq. cbn [andb]. unfold can_write in Hc.
-  destruct (sock s'); [|reflexivity]. destruct (blocked s'); [reflexivity|].
-  destruct (Hc eq_refl) as (_ & _ & ->). reflexivity.
+  rewrite Hok, Ho, Hb, Hq. cbn [andb].
+  destruct (sock s'); [|reflexivity]. destruct (tm s') eqn:Et; cbn [is_block negb orb]; try reflexivity.
+  rewrite (Hc eq_refl ltac:(discriminate)). reflexivity.
 Qed.
 
 Lemma fifo_from : forall ops s k, RF s k ->
@@ -266,7 +320,7 @@ End Fifo.
 Theorem fifo_proved : FIFO_stmt.
 Proof.
   intros c ops. unfold fifo_ok, optrace. apply fifo_from.
-  unfold RF, QR, can_write. cbn. repeat split; discriminate.
+  unfold RF, QR, tm. cbn. repeat split; discriminate.
 Qed.
 
 Print Assumptions fifo_proved.
